@@ -47,8 +47,9 @@ def check(ctx):
     ctx.attempt(_defaults, fi, env)
     ctx.attempt(_sign_tables, fi)
     ctx.attempt(_key_purity, fi)
+    ctx.attempt(_placeholders_decompose)
     ctx.attempt(_perm, fi)
-    ctx.attempt(forward.check_all, module_suffixes=('containers.containers',))
+    ctx.attempt(forward.check_all, module_suffixes=('containers.containers', 'tract.tract'))
 
 
 def _key_grammar(ctx, fi, pat, legal, sort_defs):
@@ -172,6 +173,19 @@ def _defaults(ctx, fi, env):
             arg = n.value.left.args[0]
             if isinstance(arg, ast.Constant):
                 dflt[n.targets[0].id] = arg.value
+    # a substitute that can TIE with a valid number does not put errors last
+    for x in walk_local(fi.node):
+        if isinstance(x, ast.Assign) and isinstance(x.targets[0], ast.Name) and x.targets[0].id.startswith('default_') \
+                and x.targets[0].id not in dflt:
+            gm = [c for c in ast.walk(x.value) if isinstance(c, ast.Call) and dotted(c.func) == 'get_max']
+            plus = isinstance(x.value, ast.BinOp) and isinstance(x.value.op, ast.Add)
+            if gm and not plus:
+                ctx.violation('SIB', f"{x.targets[0].id} is strictly greater than every valid number of its component",
+                              f"`{norm(x)}` can equal the largest valid number (no `+ 1`): an error / undefined element then ties "
+                              f"with that element and keeps its place instead of sorting last",
+                              key=f"SIB|_sort_custom|default-tie|{x.targets[0].id}", where=common.loc(fi, x))
+                if gm[0].args and isinstance(gm[0].args[0], ast.Constant):
+                    dflt[x.targets[0].id] = gm[0].args[0].value
     ctx.floor('default_<component> definitions', len(dflt), 3)
     ctx.check(set(dflt.values()) == {'twp_num', 'rge_num', 'sec_num'}, 'SIB',
               'error substitutes are max+1 of twp_num, rge_num and sec_num',
@@ -262,6 +276,9 @@ def _sign_tables(ctx, fi):
             if dir_attr:
                 attrs[dir_attr] = d
             cases.append((f"valid {num_attr}" + (f", {dir_attr}={d!r}" if dir_attr else ''), attrs, ccp.Sym(num_attr, sg)))
+        zero = dict(base)
+        zero[num_attr] = 0
+        cases.append((f"valid {num_attr} = 0", zero, 0))
         err = dict(base)
         err[num_attr] = None
         if dir_attr:
@@ -278,8 +295,14 @@ def _sign_tables(ctx, fi):
                 ctx.undecided('SIB', construct, 'sort_defs entry is not a function of the scope')
                 continue
             n += 1
-            if isinstance(got, ccp.Sym) and got == want:
+            if (isinstance(got, ccp.Sym) and got == want) or (isinstance(want, int) and not isinstance(got, ccp.Sym)
+                                                          and isinstance(got, int) and got == want):
                 ctx.ok('SIB', construct, 'constant propagation')
+            elif isinstance(want, int):
+                ctx.violation('SIB', construct,
+                              f"the key function yields {got} for a valid number 0 (Section 00 / Township 0): a falsy but valid "
+                              f"number is taken for a missing one and sorted with the error elements",
+                              key=f"SIB|_sort_custom|{key}|zero|{got}", where=fi.loc)
             elif isinstance(got, ccp.Sym):
                 what = ("error / undefined elements do not sort after all valid ones for this key"
                         if 'error' in label else "the order of valid elements is not the one the key names")
@@ -324,6 +347,24 @@ def _key_purity(ctx, fi):
               detail_bad=f"{bad[0][0] if bad else ''} reads `self` while list.sort() runs (the list is empty during "
                          f"the sort: maxima computed there are 0, so error elements get the value 1)",
               key=f"PURITY|_sort_custom|{bad[0][0] if bad else ''}", where=common.loc(fi, bad[0][1]) if bad else None)
+
+
+def _placeholders_decompose(ctx):
+    """a TRS with ONE error / undefined component still decomposes (so that
+    only that component sorts last): the unpacker accepts the placeholder
+    spellings as trs_to_dict presents them (lower-cased)"""
+    from .c12 import unpacker, _subject_prov
+    rv = unpacker(ctx)
+    L = common.lang(ctx, rv)
+    td = ctx.repo.func('TRS.trs_to_dict')
+    lowered = 'lower' in {c.split('.')[-1] for c in flow.prov_calls(_subject_prov(ctx, td))}
+    mc = lambda a: ctx.fold.get_attr('master_config', 'MasterConfig', a)
+    for s_ in (f"154n97w{mc('_ERR_SEC')}", f"{mc('_ERR_TWP')}97w01", f"154n{mc('_ERR_RGE')}01", f"154n97w{mc('_UNDEF_SEC')}"):
+        t_ = s_.lower() if lowered else s_
+        ctx.check(L.fullmatch(t_), 'RX-LANG', f"the TRS unpacker decomposes {s_!r}",
+                  detail_bad=f"{t_!r} (as trs_to_dict hands it over) is not matched by the unpacker: a TRS with one error component "
+                             f"becomes the all-error TRS, so its valid Twp / Rge sort last too",
+                  key=f"RX-LANG|TRS unpacker|{s_}")
 
 
 def _perm(ctx, fi):
